@@ -401,7 +401,7 @@ def parse_global(mod, ln):
 
 
 def parse_function(mod, lines):
-    hdr = lines[0]
+    hdr = re.sub(r' personality .*\{$', ' {', lines[0])
     m = re.match(r'define (.*?)(@[-a-zA-Z$._0-9]+|@"[^"]*")\((.*)\)([^()]*)\{$', hdr)
     if not m:
         raise SyntaxError('define? ' + hdr)
